@@ -15,7 +15,7 @@ LEVEL = "exploration"
 ENGINE = "simsched"
 TIERS = {
     "quick": {"runs": 12000, "budget_s": 75, "chunk": 24},
-    "thorough": {"runs": 60000, "budget_s": 1500, "chunk": 16},
+    "thorough": {"runs": 350000, "budget_s": 1500, "chunk": 50},
 }
 RULE = ("one evaluation = one seeded problem (scan 5-12 incl. odd/non-square, detector grid 7-11, "
         "disc mask 9-37 pixels with soft-edged aperture, aberrations none/defocus/defocus+astigmatism, "
